@@ -23,6 +23,11 @@ pub struct GenTable {
 
 impl GenTable {
     pub fn add(&mut self, kid: usize, key: &[u8], ts: u64, exp: u64, value: &[u8], version: u32) -> usize {
+        // the same content stored again (e.g. re-done after a crash) is the same generation
+        let existing = self.lookup(key, ts, exp, value);
+        if existing != 0 {
+            return existing;
+        }
         let id = self.gens.len() + 1;
         let blocks = (L::encode_record(version, 16, key, value, ts, exp).len() / L::BLOCK) as u64;
         self.gens.push(GenInfo { id, kid, key: key.to_vec(), ts, exp, value: value.to_vec(), blocks });
